@@ -106,6 +106,7 @@ type World struct {
 	tokens  map[int]bson.Raw            // resume token of the last event delivered on a slot
 	times   map[int]primitive.Timestamp // cluster time of the last event delivered on a slot
 	handles map[int]*lungo.Transaction
+	stale   map[int]*lungo.Transaction // finished handles (for the misuse op estale)
 	History []HRec
 	seq     int
 }
@@ -142,7 +143,7 @@ func NewWorld(o WorldOptions) (*World, error) {
 	}
 	w := &World{Client: client, Engine: engine, Store: fs, Sessions: map[int]lungo.ISession{},
 		streams: map[int]lungo.IChangeStream{}, tokens: map[int]bson.Raw{}, times: map[int]primitive.Timestamp{},
-		handles: map[int]*lungo.Transaction{}}
+		handles: map[int]*lungo.Transaction{}, stale: map[int]*lungo.Transaction{}}
 	for i := 1; i <= o.Sessions; i++ {
 		s, err := client.StartSession()
 		if err != nil {
@@ -228,7 +229,7 @@ func (w *World) record(h HRec) {
 // modelCall gives the model-level call of a simple op.
 func modelCall(op Op) CallInfo {
 	switch op.Kind {
-	case "ins", "inc", "fau", "upd0", "dup", "del", "drop", "dropdb":
+	case "ins", "inc", "fau", "upd0", "dup", "bad", "del", "drop", "dropdb":
 		return CallInfo{Call: "useTx", Lock: true, Sess: op.Sess, Op: op.Kind}
 	case "find":
 		return CallInfo{Call: "useTx", Lock: false, Sess: op.Sess, Op: op.Kind}
@@ -430,10 +431,29 @@ func (w *World) call(ctx context.Context, a *actor, idx, sub int, op Op, inWtx b
 			w.handles[a.id] = t
 			w.mu.Unlock()
 		}
+	case "bad":
+		// an update the callback rejects: useTransaction's error path (deferred Abort)
+		err = with(func(ctx context.Context) error {
+			_, e := w.coll(op).UpdateOne(ctx, bson.D{{Key: "_id", Value: "ctr"}}, bson.D{{Key: "$nosuchop", Value: bson.D{{Key: "n", Value: 1}}}})
+			return e
+		})
+	case "estale":
+		// client misuse: Commit of a transaction that is already finished (outside the model's vocabulary)
+		w.mu.Lock()
+		t := w.stale[a.id]
+		w.mu.Unlock()
+		if t == nil {
+			res.Cls = "skipped"
+			return res
+		}
+		err = w.Engine.Commit(t)
 	case "ecommit", "eabort":
 		w.mu.Lock()
 		t := w.handles[a.id]
 		delete(w.handles, a.id)
+		if t != nil {
+			w.stale[a.id] = t
+		}
 		w.mu.Unlock()
 		if t == nil {
 			res.Cls = "skipped"
